@@ -11,6 +11,8 @@ switches them on at run time:
            of every multi-case select of a synctest-bubble goroutine.
   os:      OpenFile, (*File).Write/WriteAt/ReadFrom/Sync/Close/Truncate and
            Remove consult os.VerifHook (nil = stock behaviour).
+  sync:    (*RWMutex).RLock/RUnlock call sync.VerifRWHook when it is set
+           (recursive read locking of the code under test is reported).
 
 The patcher is exact-match: every pattern must occur exactly once in the
 installed source, else generation fails (exit 2) instead of guessing.
@@ -76,6 +78,18 @@ func verifSelectOrder(n uint32) uint32 {
 	z = z ^ (z >> 31)
 	return uint32(z % uint64(n))
 }
+'''
+
+SYNC_NEW = '''// Code added by /verif/overlay/gen_overlay.py. Not part of Go.
+
+package sync
+
+// VerifRWHook, when non-nil, is called at the start of every RLock (op 0)
+// and RUnlock (op 1): the simulator keeps, per goroutine, the read locks the
+// code under test holds, and reports a goroutine that read-locks an RWMutex
+// it already holds for reading (prohibited: a writer arriving in between
+// blocks the second RLock for ever).
+var VerifRWHook func(rw *RWMutex, op int)
 '''
 
 OS_NEW = '''// Code added by /verif/overlay/gen_overlay.py. Not part of Go.
@@ -269,6 +283,12 @@ def main():
          "func selectgo(cas0 *scase, order0 *uint16, pc0 *uintptr, nsends, nrecvs int, block bool) (int, bool) {\n\tverifSelectGate(nsends + nrecvs)\n\tgp := getg()\n"),
     ], "runtime/select.go"))
     emit("runtime/verif_select.go", RUNTIME_NEW)
+
+    emit("sync/rwmutex.go", patch(rd("sync/rwmutex.go"), [
+        ("func (rw *RWMutex) RLock() {\n", "func (rw *RWMutex) RLock() {\n\tif h := VerifRWHook; h != nil {\n\t\th(rw, 0)\n\t}\n"),
+        ("func (rw *RWMutex) RUnlock() {\n", "func (rw *RWMutex) RUnlock() {\n\tif h := VerifRWHook; h != nil {\n\t\th(rw, 1)\n\t}\n"),
+    ], "sync/rwmutex.go"))
+    emit("sync/verif_rwhook.go", SYNC_NEW)
 
     emit("os/file.go", patch(rd("os/file.go"), [
         ("func OpenFile(name string, flag int, perm FileMode) (*File, error) {",
